@@ -19,12 +19,16 @@ Wrap(w, t) == CASE w = "bare" -> t
                 [] w = "optarr" -> [k |-> "opt", t |-> [k |-> "arr", t |-> t, n |-> 3]]
                 [] w = "dynopt" -> [k |-> "dyn", t |-> [k |-> "opt", t |-> t]]
                 [] w = "arrarr" -> [k |-> "arr", t |-> [k |-> "arr", t |-> t, n |-> 2], n |-> 2]
-Targets == {"EarlierS", "EarlierE", "Later", "Self", "Undeclared", "ModBefore", "ModAfter", "ModNested", "ModEnum"}
+Targets == {"EarlierS", "EarlierE", "Later", "Self", "Undeclared", "ModBefore", "ModAfter", "ModNested", "ModEnum", "ModSameName"}
 TargetName(tg) == CASE tg = "EarlierS" -> "Aa" [] tg = "EarlierE" -> "Ee" [] tg = "Later" -> "Zz" [] tg = "Self" -> "Pp"
                     [] tg = "Undeclared" -> "Nope" [] tg = "ModEnum" -> "Me" [] OTHER -> "Mx"
 ModFiles(tg) ==
     CASE tg \in {"ModBefore", "ModAfter"} -> [p \in {<<"m1">>} |-> <<St("Mx", <<Fld("q", 0, U8)>>)>>]
       [] tg = "ModEnum" -> [p \in {<<"m1">>} |-> <<En("Me")>>]
+      (* two modules with the same file name in different directories, each declaring a struct at the same place *)
+      [] tg = "ModSameName" -> [p \in {<<"pa", "types">>, <<"pb", "types">>} |->
+                                  IF p = <<"pa", "types">> THEN <<St("Ma", <<Fld("q", 0, U8)>>)>>
+                                  ELSE <<St("Mx", <<Fld("q", 0, U8), Fld("r", 1, U8)>>), St("Mz", <<Fld("w", 0, Ref("Mx"))>>)>>]
       [] tg = "ModNested" -> [p \in {<<"m1">>, <<"sub", "m2">>} |->
                                 IF p = <<"m1">> THEN <<Mod(<<"sub", "m2">>)>> ELSE <<St("Mx", <<Fld("q", 0, U8)>>)>>]
       [] OTHER -> <<>>
@@ -34,6 +38,7 @@ ResolveCase(w, tg, pos) ==
         fields == IF pos = 1 THEN <<probe>> \o others ELSE IF pos = 2 THEN <<others[1], probe, others[2]>> ELSE others \o <<probe>>
         main == <<En("Ee"), St("Aa", <<Fld("q", 0, U8)>>)>>
                 \o (IF tg \in {"ModBefore", "ModNested", "ModEnum"} THEN <<Mod(<<"m1">>)>> ELSE <<>>)
+                \o (IF tg = "ModSameName" THEN <<Mod(<<"pa", "types">>), Mod(<<"pb", "types">>)>> ELSE <<>>)
                 \o <<St("Pp", fields)>>
                 \o (IF tg = "ModAfter" THEN <<Mod(<<"m1">>)>> ELSE <<>>)
                 \o <<St("Zz", <<Fld("q", 0, Ref("Pp"))>>)>> IN
